@@ -235,6 +235,8 @@ def run(ctx):
                 run.instance(R3, {"fn": "foreign::receive_tx", "obligation": "duplicate look-up keyed by Some(slate.id)"}, held=h)
                 if not h:
                     run.finding(Finding(R3, rt, "duplicate look-up is not keyed by the slate id", site=c.site_of(f, b)))
+                from .shared import duplicate_lookup_complete
+                duplicate_lookup_complete(ctx, R3, f, b, t)
         c.require_pass(ctx, R3, rt, c.LW + "slate::Slate::remove_other_sigdata", ("okret",), "Ok return passes remove_other_sigdata Ok (only the recipient's participant entry leaves)")
         for fld in ("amount", "fee_fields"):
             asg = vf.field_assignments(f, c.LW + "slate::Slate", fld)
